@@ -34,12 +34,39 @@ def lemma_instances(I, c, env, lemmas):
     return out
 
 
-def verify_contract(w, src, db, c, lemmas=None, timeout_ms=10000):
+def verify_contract(w, src, db, c, lemmas=None, timeout_ms=10000, relevance=None):
     lemma_fn = (lambda I, env: lemma_instances(I, c, env, lemmas or {})) if c.lemmas else None
-    return _verify_contract(w, src, db, c, lemma_fn, timeout_ms)
+    return _verify_contract(w, src, db, c, lemma_fn, timeout_ms, relevance)
 
 
-def _verify_contract(w, src, db, c, lemma_fn=None, timeout_ms=10000):
+def relevance_check(I, ob, verdict, relevance, timeout_ms):
+    """Does every counterexample of this refuted obligation need the property's feature?  Re-discharge with the
+    feature excluded: unsat -> the refutation concerns the property (relevant); sat -> it does not."""
+    for pat, expr in relevance.items():
+        if pat in ob.name:
+            mode = "exclude"
+            if isinstance(expr, tuple):
+                mode, expr = expr
+            try:
+                feat = spec_bool(I, expr, ob.vars, ob.name)
+            except Exception as ex:
+                verdict.relevance_note = f"feature `{expr}` not evaluable here: {ex}"
+                return True
+            extra = z3.Not(feat) if mode == "exclude" else feat
+            ob2 = Obligation(ob.name, list(ob.hyps) + [extra], ob.goal, ob.where, ob.kind, ob.note)
+            v2 = discharge(ob2, list(I.axioms) + list(getattr(I, "q_axioms", [])), I.nat_consts, min(timeout_ms, 5000), use_cvc5=False, long_retry=False)
+            if mode == "exclude":
+                verdict.relevance_note = f"with `{expr}` excluded the obligation is {v2.status}"
+                return v2.status == "discharged"       # every counterexample needs the feature; `unknown` is left to the property oracle
+            verdict.relevance_note = f"restricted to the property's domain `{expr}` the obligation is {v2.status}"
+            if v2.status == "refuted" and v2.model:
+                verdict.model = v2.model
+                verdict.model_text = v2.model_text
+            return v2.status != "discharged"
+    return False
+
+
+def _verify_contract(w, src, db, c, lemma_fn=None, timeout_ms=10000, relevance=None):
     """returns (verdicts, stats).  A function leaving the subset gives one 'unknown' verdict
     named R:<fn>:subset (never a violation)."""
     I = Interp2(w, src, db)
@@ -61,7 +88,10 @@ def _verify_contract(w, src, db, c, lemma_fn=None, timeout_ms=10000):
         if key in seen:
             continue
         seen.add(key)
-        verdicts.append(discharge(ob, list(I.axioms) + list(getattr(I, "q_axioms", [])), I.nat_consts, timeout_ms))
+        v = discharge(ob, list(I.axioms) + list(getattr(I, "q_axioms", [])), I.nat_consts, timeout_ms)
+        if relevance and v.status == "refuted" and v.kind == "R":
+            v.relevant = relevance_check(I, ob, v, relevance, timeout_ms)
+        verdicts.append(v)
     # make names unique
     names = {}
     for v in verdicts:
@@ -144,4 +174,7 @@ def contract_obligations(I, c, lemma_fn=None):
                   except Unsupported as ex:
                       obs.append(Obligation(f"{tag}.unchanged-on-raise[{m}]", p.pc, z3.BoolVal(False), where, "R", str(ex)))
     obs.extend(I.obligations)
+    for ob in obs:
+        for k_, v_ in env.items():
+            ob.vars.setdefault(k_, v_)
     return obs
